@@ -93,7 +93,8 @@ def main(tier, seed, only=None):
     order = list(range(len(cfgs)))
     random.Random(seed).shuffle(order)
     from harness import l3
-    res = l3.explore_split([cfgs[i] for i in order], want=12)
+    res = l3.explore_split([cfgs[i] for i in order], want=12,
+                           wall_s=1800 if tier == 'thorough' else 600)
     for i, d in zip(order, res):
         cfg, b, cap = cfgs[i]
         found = d.pop('found')
